@@ -106,6 +106,60 @@ func C11(p *core.Program, r *core.Report) {
 	}
 	r.Add("D2", "clock reads examined", "", nNow >= 8, fmt.Sprintf("%d time.Now/time.Since calls in module code", nNow))
 
+	// ---- D5: the same for the third-party code the entry points run (everything reachable from
+	// Apply/ApplyForReader/ApplyForFile that is neither module nor standard library): a goroutine
+	// or a select there makes the answer depend on the scheduler like one in module code would
+	{
+		var roots []*ssa.Function
+		for _, n := range []string{"Apply", "ApplyForReader", "ApplyForFile"} {
+			if f := p.Func(core.ModPath + "." + n); f != nil {
+				roots = append(roots, f)
+			}
+		}
+		reach := p.ReachableFrom(roots...)
+		var fns []*ssa.Function
+		for f := range reach {
+			pp := core.FnPkgPath(f)
+			first := pp
+			if i := strings.Index(pp, "/"); i >= 0 {
+				first = pp[:i]
+			}
+			if pp == "" || core.IsModPkg(pp) || !strings.Contains(first, ".") || strings.HasPrefix(pp, "golang.org/x/tools") {
+				continue
+			}
+			fns = append(fns, f)
+		}
+		sort.Slice(fns, func(i, j int) bool { return fns[i].String() < fns[j].String() })
+		nDep := 0
+		seenDep := map[string]bool{}
+		for _, f := range fns {
+			nDep++
+			for _, b := range f.Blocks {
+				for _, in := range b.Instrs {
+					what := ""
+					switch in.(type) {
+					case *ssa.Go:
+						what = "go statement"
+					case *ssa.Select:
+						what = "select"
+					}
+					owner := f
+					for owner.Parent() != nil {
+						owner = owner.Parent()
+					}
+					key := "dependency code run by the entry points: " + what + " in " + owner.String()
+					if what == "" || seenDep[key] {
+						continue
+					}
+					seenDep[key] = true
+					r.Add("D5", key, p.Pos(in.Pos()), false, "goroutine scheduling / channel readiness decides what this code answers first")
+				}
+			}
+		}
+		r.Add("D5", "third-party functions reachable from Apply/ApplyForReader/ApplyForFile examined", "", nDep >= 50, fmt.Sprintf("%d functions", nDep))
+		r.Stats["dependency_functions_reachable"] = nDep
+	}
+
 	// ---- D3
 	a := runPEA(p)
 	peaStats(r, a)
